@@ -107,4 +107,53 @@ def run(ctx):
     st = Stream("ishidden", lines, oracle=ih_oracle, nontrivial=lambda i, l, o: o == "t",
                 desc="isHidden on all byte strings up to length %d x %d hidden sets; oracle: component-wise containment; non-trivial = hidden" % (L, len(hsets)), exhaustive=True)
     results.append(run_t1_stream("C06", st, model_ok))
+    results.append(routes_stream(tier, rnd, model_ok))
     return {"streams": results}
+
+
+def routes_stream(tier, rnd, model_ok):
+    """'by any route, including through symlinks': real trees, names that are not lexically
+    hidden but lead into the hidden path through a symlink to one of its ancestors"""
+    import t2
+    import worldrun
+    n = 60 if tier == "quick" else 1200
+    cases = []
+    for i in range(n):
+        hid = rnd.choice([b"/var/backups", b"/h/x/secret", b"/h"])
+        anc = rnd.choice([a for a in t2.parents(hid)])
+        inits = [("D", b"/", 0o755, 0, 0, 1)]
+        mt = 5
+        for a in list(reversed(t2.parents(hid)))[1:] + [hid]:
+            mt += 1
+            inits.append(("D", a, 0o755, 0, 0, mt))
+        inits.append(("F", hid + b"/old", 0o600, 0, 0, 50, "Bsecret"))
+        inits.append(("D", b"/pub", 0o755, 0, 0, 51))
+        link = b"/pub/lnk"
+        rest = hid[len(anc):] if anc != b"/" else hid
+        tgt = rnd.choice([anc, b"../" + anc[1:] if anc != b"/" else b".."])
+        ops = [("dump",), ("symlink", tgt, link), ("dump",)]
+        route = link + rest
+        for k in rnd.sample(["stat", "lstat", "read", "readdir", "chmod", "remove", "create", "mkdir"], 4):
+            name = route + rnd.choice([b"/old", b"", b"/new"])
+            if k == "read":
+                name = route + b"/old"
+            o = t2.gen_op(rnd, {name: "F"}, [k])
+            ops += [tuple([o[0], name] + list(o[2:])), ("dump",)]
+        cfg = {"ctor": "generic", "q": b"/unused-backup", "p": None, "hs": [hid]}
+        cases.append(t2.Case("c06r-%d" % i, cfg, inits, ops, meta={"direct": True, "raw": True, "hid": hid}))
+
+    def oracle(case, a):
+        hid_ = case.meta["hid"]
+        s0 = sorted(l for l in a["S"].get("0", []) if pg.within(hid_, worldrun.path_of(l)))
+        for i, o in enumerate(case.ops):
+            if o[0] in ("dump", "symlink"):
+                continue
+            st_ = a["R"].get(i)
+            if st_ and st_[0] == "ok":
+                return "%s %s succeeds: hidden content reached through the symlink %s" % (o[0], enc(o[1]), enc(case.ops[1][2]))
+        fin = sorted(l for l in a["S"].get("final", []) if pg.within(hid_, worldrun.path_of(l)))
+        if s0 != fin:
+            return "the hidden subtree changed: %s" % sorted(set(s0) ^ set(fin))[:3]
+        return None
+    return worldrun.run_stream("C06", "routes_real_trees", cases, model_ok, level=1, oracle=oracle,
+                               desc="HiddenFS over OSFS in a chroot: a symlink to an ancestor of the hidden path is created through HiddenFS (accepted: its target is not hidden), then operations name hidden content through it; compared with the model; oracle: no such operation succeeds and the hidden subtree is unchanged (recorded finding D9)")
